@@ -129,3 +129,5 @@ end LP.Props.C15
 #print axioms LP.Props.C15.distribute_v2_rejected_for_contracts
 #print axioms LP.Props.C15.open_endpoints
 #print axioms LP.Props.C15.rejected_is_noop
+
+#print axioms LP.Props.C15.ownerOnly_table
